@@ -57,7 +57,7 @@ def register(w):
         c = w.contracts[key]
         if "ghost.opened_paths" not in (c.modifies or []):
             c.modifies = list(c.modifies) + ["ghost.opened_paths"]
-            c.ensures = c.ensures + ["ghost.opened_paths == old(ghost.opened_paths) + [selector]"]
+            c.ensures_assumed = c.ensures_assumed + ["ghost.opened_paths == old(ghost.opened_paths) + [selector]"]
             c.on_raise.setdefault("*", []).append("True")
             c.ghost = dict(c.ghost, opened_paths="trace")
 
